@@ -635,7 +635,11 @@ class DynamicSlicer:
                     traced_instr.combined_attr,
                 )
                 complete_cover = True
-                context.attr_uses.remove(traced_instr.combined_attr)
+                # Subscript accesses are traced with the placeholder attribute "None" for
+                # the whole container: a store defines one element only, and which one is
+                # not recorded, so the use of the container's elements stays pending.
+                if traced_instr.argument != "None":
+                    context.attr_uses.remove(traced_instr.combined_attr)
             # Partial cover: modification of attribute of
             # object in search for definition
             if hex(traced_instr.src_address) in context.var_address_uses:
